@@ -25,6 +25,7 @@ type Prog struct {
 	byPath map[string]*types.Package
 	repo   string
 	funcs  map[string]*ssa.Function // contract key -> function
+	specErrors map[string][]string // property -> names in the contract files that match nothing in the program
 }
 
 func loadProg(repo, specDir string) (*Prog, error) {
@@ -82,6 +83,7 @@ func loadProg(repo, specDir string) (*Prog, error) {
 			p.funcs[k] = fn
 		}
 	}
+	p.validateSpecNames()
 	return p, nil
 }
 
@@ -277,4 +279,65 @@ func describe(v ssa.Value, depth int) string {
 		return "next"
 	}
 	return "_"
+}
+
+// validateSpecNames: interface contracts and taint fields are matched by name
+// at call sites / loads; a name that matches nothing would silently never
+// apply. Such names are collected and reported by every check of the
+// properties they belong to.
+func (p *Prog) validateSpecNames() {
+	p.specErrors = map[string][]string{}
+	add := func(props []string, msg string) {
+		if len(props) == 0 {
+			props = []string{"*"}
+		}
+		for _, pr := range props {
+			p.specErrors[pr] = append(p.specErrors[pr], msg)
+		}
+	}
+	for k, c := range p.specs.Contracts {
+		if !strings.HasPrefix(k, "iface:") {
+			continue
+		}
+		name := strings.TrimPrefix(k, "iface:")
+		i := strings.LastIndex(name, ".")
+		if i < 0 {
+			add(c.Props, "iface contract "+name+": malformed")
+			continue
+		}
+		t := p.lookupQualifiedType(name[:i])
+		ok := false
+		if t != nil {
+			if it, isI := t.Underlying().(*types.Interface); isI {
+				for m := 0; m < it.NumMethods(); m++ {
+					if it.Method(m).Name() == name[i+1:] {
+						ok = true
+					}
+				}
+			}
+		}
+		if !ok {
+			add(c.Props, "iface contract "+name+": no such interface method in the program")
+		}
+	}
+	for _, t := range p.specs.Taints {
+		for f := range t.Fields {
+			i := strings.LastIndex(f, ".")
+			ok := false
+			if i > 0 {
+				if ty := p.lookupQualifiedType(f[:i]); ty != nil {
+					if st, isS := ty.Underlying().(*types.Struct); isS {
+						for j := 0; j < st.NumFields(); j++ {
+							if st.Field(j).Name() == f[i+1:] && isString(st.Field(j).Type()) {
+								ok = true
+							}
+						}
+					}
+				}
+			}
+			if !ok {
+				add(nil, "taint "+t.Fn+": field "+f+" is not a string field of a struct type of the program")
+			}
+		}
+	}
 }
